@@ -58,7 +58,7 @@ class StateVector():
             float: Optional, If return_phase=True, the global phase angle not captured by the Circuit
         """
         # call to generate the circuit that takes the desired vector to zero
-        disentangling_circuit, global_phase = self.uncomputing_circuit(return_phase=True)
+        disentangling_circuit, global_phase = self.uncomputing_circuit(return_phase=True, set_n_qubits=set_n_qubits)
 
         # invert the circuit to create the desired vector from zero (assuming
         # the qubits are in the zero state)
